@@ -120,6 +120,17 @@ def tcp_frames(ep, items, t0=100.0, dt=1.0, group=None, seg_size=None):
     return out
 
 
+def stream_groups(items):
+    """consecutive items of one direction form one byte stream (to be cut into segments without regard to record boundaries)"""
+    groups = []
+    for k, it in enumerate(items):
+        if groups and items[groups[-1][0]].from_server == it.from_server:
+            groups[-1].append(k)
+        else:
+            groups.append([k])
+    return groups
+
+
 def keylog_objects(mods, keylog):
     """keylog_reader.Key objects whose hex fields are symbolic text proxies."""
     from tlv.sx.symbytes import SymHex, as_symbytes
